@@ -47,6 +47,15 @@ impl Worker {
 
 impl Drop for Worker {
     fn drop(&mut self) {
+        // (coverage runs, `VERIF_GRACEFUL=1`: let the worker leave its loop and exit normally so that it can flush its profile)
+        if std::env::var_os("VERIF_GRACEFUL").is_some() {
+            let _ = writeln!(self.stdin, "\u{4}__quit__");
+            let _ = self.stdin.flush();
+            for _ in 0..200 {
+                if let Ok(Some(_)) = self.child.try_wait() { return; }
+                std::thread::sleep(std::time::Duration::from_millis(10));
+            }
+        }
         let _ = self.child.kill();
         let _ = self.child.wait();
     }
@@ -60,6 +69,7 @@ pub fn serve(handler: &dyn Fn(&str) -> String) {
     let mut out = std::io::stdout();
     for line in stdin.lock().lines() {
         let Ok(line) = line else { break };
+        if line == "\u{4}__quit__" { break; }
         let r = std::panic::catch_unwind(std::panic::AssertUnwindSafe(|| handler(&line)));
         let ans = match r {
             Ok(a) => a,
